@@ -439,7 +439,12 @@ func cacheCrashMain(args []string) {
 				ferr := c.Fetch(ctx, key, filepath.Join(w.base, "dest"))
 				rep.Eval(caseTxt, true)
 				if serr == nil && (ferr != nil || whichVersion(w.readTree(filepath.Join(w.base, "dest"))) != "v1") {
-					rep.Fail(hx.Failure{Kind: "impl-violates-property", Key: "store-succeeds-but-version-not-fetchable:remote-path-contains-.part", Case: caseTxt, Expected: "Fetch returns v1", Observed: fmt.Sprint(ferr, " ", whichVersion(w.readTree(filepath.Join(w.base, "dest"))))})
+					pkey := "store-succeeds-but-version-not-fetchable:remote-path-contains-.part"
+					if ferr != nil && backend == "mem" && kind == sharedcache.CacheMutable && (strings.Contains(ferr.Error(), "stale lock") || strings.Contains(ferr.Error(), "locked")) {
+						// not about the path at all: the entry lock's cancelled heartbeat re-created the lock directory (recorded finding)
+						pkey = "store-reported-success-but-fetch-fails:heartbeat-resurrects-the-lock-directory-on-the-memory-backend"
+					}
+					rep.Fail(hx.Failure{Kind: "impl-violates-property", Key: pkey, Case: caseTxt, Expected: "Fetch returns v1", Observed: fmt.Sprint(ferr, " ", whichVersion(w.readTree(filepath.Join(w.base, "dest"))))})
 				}
 				w.cleanup()
 			}
